@@ -22,13 +22,12 @@ package local
 
 //@ fn (*dagStoreImpl).ensureDirExist(d) (err)
 //@   props C18
-//@   modifies ghost obs.stat_err, ghost obs.stat_path, ghost obs.exists_calls, ghost obs.exists, ghost obs.exists_path, ghost fs.seq, ghost fs.mkdirs, ghost eff.fs
+//@   modifies ghost obs.stat*, ghost obs.exists*, ghost obs.mkdir*, ghost fs.seq, ghost fs.mkdirs, ghost eff.fs
 
 // Create never writes over an existing definition.
 //@ fn (*dagStoreImpl).Create(d, name, spec) (id, err)
 //@   props C18
-//@   modifies heap(alloc), ghost obs.stat_err, ghost obs.stat_path, ghost obs.exists_calls, ghost obs.exists, ghost obs.exists_path, ghost fs.seq, ghost fs.mkdirs,
-//@            ghost fs.writefiles, ghost fs.last_writefile, ghost eff.fs
+//@   modifies heap(alloc), ghost obs.stat*, ghost obs.exists*, ghost obs.mkdir*, ghost fs.seq, ghost fs.mkdirs, ghost fs.writefiles, ghost fs.last_writefile, ghost eff.fs
 //@   assert before os.WriteFile [C18 create_only_where_nothing_exists] obs.exists_path == arg0 && !obs.exists && arg0 == ite(contains(name, "/"), name, dag_location(d.dir, name)) && arg1 == spec
 //@   ensures [C18 existing_definition_is_never_overwritten] fs.writefiles == old(fs.writefiles) || (fs.writefiles == old(fs.writefiles) + 1 && !obs.exists && obs.exists_path == fs.last_writefile)
 
